@@ -65,6 +65,7 @@ class Contract:
     serves: list = field(default_factory=list)
     abstract: bool = False        # interface contract without a body to verify (e.g. builder callbacks)
     pure: bool = False
+    result_is: Any = None         # lambda over the arguments: the result is exactly this spec expression (functional contract)
     bounded_only: str = ""     # non-empty: the proof is not attempted; reason; only the bounded stand-in runs
     file: str = ""
     notes: str = ""
@@ -169,6 +170,15 @@ class Registry:
                 ty, opt = self._td_field_type(v, mod)
                 fields.append((k.value, ty, opt))
         self._td_building.discard(id(node))
+        if not fields and isinstance(node, ast.ClassDef):
+            # an empty TypedDict with TypedDict subclasses is a union: one record with the subclasses' keys, all optional
+            for sub, defs in self.prog.typed_dict_defs.items():
+                for m2, n2 in defs:
+                    if isinstance(n2, ast.ClassDef) and any(ast.unparse(b) == bare for b in n2.bases) and m2 == mod:
+                        for s2 in n2.body:
+                            if isinstance(s2, ast.AnnAssign) and isinstance(s2.target, ast.Name):
+                                ty, _ = self._td_field_type(s2.annotation, m2)
+                                fields.append((s2.target.id, ty, True))
         skey = tuple((k, t, o) for k, t, o in fields)
         if skey in self._struct and fields:
             r = self._struct[skey]                 # structurally identical records are one type
@@ -443,6 +453,7 @@ class Registry:
                      loops=loops, inline=flag("inline"), trusted=flag("trusted"), generator=flag("generator"),
                      variants=variants, serves=serves, abstract=flag("abstract"), pure=flag("pure"), file=path,
                      bounded_only=kw["bounded_only"].value if "bounded_only" in kw else "",
+                     result_is=kw.get("result_is"),
                      notes=kw["notes"].value if "notes" in kw else "")
         self.contracts[qual] = c
 
@@ -566,6 +577,8 @@ class Registry:
         for q, fi in self.prog.funcs.items():
             if fi.cls is None and fi.name == name:
                 return VFunc(fi.qualname, fi.node, None, None)
+        if name in self.prog.typed_dict_defs:
+            return VBuiltin("typeddict:" + name)
         if name in BUILTIN_NAMES:
             return VBuiltin(name)
         if name in ("re", "io", "os", "json", "textwrap", "contextlib"):
@@ -608,7 +621,10 @@ class Registry:
         # facts (axiom instances) generated while evaluating the spec are global truths: keep them
         for lab, t in res[0][0].pc[len(st.pc):]:
             st.pc.append((lab, t))
-        return res[0][1]
+        v = res[0][1]
+        if isinstance(v, VRef) and v.loc not in st.heap:
+            v = sub.freeze(res[0][0], v)      # a structure built by the spec expression itself: return it as a value
+        return v
 
     def as_bool(self, ex, st, v):
         return ex.truth(st, v)
@@ -646,6 +662,23 @@ class Registry:
                 fty = r.index[k.arg][0]
                 vals[k.arg] = to_term(ex.freeze(st, ex.one(st, k.value), fty), fty)
             return [(st, VRec(r, r.mk(vals)))]
+        if fname == "typed" and isinstance(ex, SpecExecutor):
+            rty = self.parse_type(e.args[0])
+            v = ex.one(st, e.args[1])
+            return [(st, ex.freeze(st, v, rty))]
+        if fname == "opt_key" and isinstance(ex, SpecExecutor):
+            # opt_key(d, "k", present, value): d extended by key k iff present
+            d = ex.one(st, e.args[0])
+            key = e.args[1].value
+            cond = ex.truth(st, ex.one(st, e.args[2]))
+            val = ex.one(st, e.args[3])
+            if not (isinstance(d, VRef) and isinstance(st.cell(d), DictCell)):
+                raise EngineUnsupported("opt_key on non-dict")
+            c = st.cell(d)
+            items, present = dict(c.items), dict(c.present)
+            items[key] = val
+            present[key] = cond
+            return [(st, st.alloc(DictCell(items, present, c.ty)))]
         if fname == "ghost" and isinstance(ex, SpecExecutor):
             nv = ex.one(st, e.args[0])
             name = concrete_str(nv.t)
@@ -919,7 +952,12 @@ class Registry:
         # normal outcome
         s = normal
         rty = self.parse_type(c.returns) if c.returns is not None else ("none",)
-        result = self.fresh_of(ex, s, rty, f"{short}_result", "local")
+        if c.result_is is not None:
+            result = self.spec_eval(ex, _pre_state(s, pre_heap), c.result_is, self.lambda_env(c.result_is, env))
+            if isinstance(result, (VTuple,)) and isinstance(rty, Ty):
+                result = ex.freeze(s, result, rty)
+        else:
+            result = self.fresh_of(ex, s, rty, f"{short}_result", "local")
         renv = dict(env)
         renv["result"] = result
         for cl in c.ensures:
@@ -1464,8 +1502,9 @@ class Registry:
         # safety obligations raised inside the element: they were recorded with pc mentioning x: generalise
         for ob in ex.obligations[nobl:]:
             ob.extra["bound"] = str(x)
-        key = (str(x.sort()), z3.substitute(body, (x, z3.Const("_bv", x.sort()))).sexpr(),
-               tuple(z3.substitute(t, (x, z3.Const("_bv", x.sort()))).sexpr() for t in extra))
+        # the map is determined by its element function alone (facts collected while evaluating the element are
+        # consequences of axioms / already-obliged preconditions, not part of the definition)
+        key = (str(x.sort()), z3.substitute(body, (x, z3.Const("_bv", x.sort()))).sexpr())
         if key not in self.map_cache:
             name = f"Map{len(self.map_cache)}"
             self.map_cache[key] = name
@@ -1477,6 +1516,7 @@ class Registry:
         mt = M(seq, *fvs)
         st.assume(z3.Length(mt) == z3.Length(seq), "map-len")
         self.qfacts.append(MapFact(mt, seq, x, body, extra))
+        self.qfacts.append(GroundFact(mt, z3.Length(mt) == z3.Length(seq)))
         return VSeq(rty, mt)
 
     def eval_dictcomp(self, ex, st, e):
@@ -1488,6 +1528,16 @@ class Registry:
         m = self.symbolic_map(ex, st, el, seq, target, elt_expr)
         xt = to_term(ex.freeze(st, x, m.elem), m.elem)
         return z3.Contains(m.t, z3.Unit(xt))
+
+
+class GroundFact:
+    """A ground fact about an uninterpreted term, added to every query in which the term occurs."""
+
+    def __init__(self, anchor, fact):
+        self.mt, self.s, self.fact = anchor, anchor, fact
+
+    def instance(self, j):
+        return self.fact
 
 
 def _pre_state(st, pre_heap):
@@ -1507,6 +1557,19 @@ class MapFact:
     def instance(self, j):
         b = z3.substitute(self.body, (self.x, self.seq[j]))
         return z3.Implies(z3.And(j >= 0, j < z3.Length(self.seq)), self.mt[j] == b)
+
+
+def verify_has_quant(t):
+    seen = set()
+
+    def walk(x):
+        if x.get_id() in seen:
+            return False
+        seen.add(x.get_id())
+        if z3.is_quantifier(x):
+            return True
+        return any(walk(c) for c in x.children())
+    return walk(t)
 
 
 def _free_consts(t):
@@ -1588,6 +1651,13 @@ class SpecExecutor(Executor):
             return self.eval(st, e.body)
         if z3.is_false(c):
             return self.eval(st, e.orelse)
+        # specialise the conditional to the current path when the path condition decides it (keeps terms small)
+        hy = [h for _, h in st.pc if not verify_has_quant(h)]
+        if len(hy) < 60:
+            if solve.quick_unsat(hy + [z3.Not(c)], 150):
+                return self.eval(st, e.body)
+            if solve.quick_unsat(hy + [c], 150):
+                return self.eval(st, e.orelse)
         return [(st, self.ite_val(st, c, self.one(st, e.body), self.one(st, e.orelse)))]
 
     def one(self, st, e) -> Val:
@@ -1660,6 +1730,10 @@ class SpecExecutor(Executor):
             if st.pre_heap is None:
                 raise EngineUnsupported("old() without pre-state")
             s.heap = dict(st.pre_heap)
+            pe = st.ghost.get("$params")
+            if pe:
+                s.env = dict(st.env)
+                s.env.update(pe)
             v = self.one(s, e.args[0])
             return [(st, self.detach(s, v))]
         entry = st.ghost.get("$entry")
